@@ -1,10 +1,11 @@
 """Mutants used to validate the checkers in both directions (see DESIGN.md section 7)."""
 
 
-def M(id, props, file, old, new, expect=None, silent=False):
+def M(id, props, file, old, new, expect=None, silent=False, more=()):
     if isinstance(props, str):
         props = [props]
-    return {"id": id, "props": props, "edits": [{"file": file, "old": old, "new": new}], "expect": expect or {}, "silent": silent}
+    edits = [{"file": file, "old": old, "new": new}] + [{"file": f, "old": o, "new": n} for f, o, n in more]
+    return {"id": id, "props": props, "edits": edits, "expect": expect or {}, "silent": silent}
 
 
 MUTANTS = [
@@ -150,4 +151,50 @@ MUTANTS = [
         }
 """,
       silent=True),
+    M("c08-peek-truncates", ["C08"], "src/operator/conda.rs",
+      "match solver.peek(&mut stream) {",
+      "match solver.trunc(&mut stream) {",
+      {"C08": "conda-solve"}),
+    M("c08-condu-keeps-all", ["C08"], "src/operator/condu.rs",
+      "match solver.trunc(&mut stream) {",
+      "match solver.peek(&mut stream) {",
+      {"C08": "condu-solve"}),
+    M("c08-conda-next-on-used-state", ["C08"], "src/operator/conda.rs",
+      "Some(_) => Stream::bind(stream, self.rest.clone()),",
+      "Some(_) => Stream::bind(stream, self.next.clone()),",
+      {"C08": "conda-solve"}),
+    M("c08-trunc-keeps-cons", ["C08"], "src/solver.rs",
+      """                Stream::Unit(a) | Stream::Cons(a, _) => {
+                    *stream = Stream::Unit(a);
+                    return stream.head();
+                }""",
+      """                Stream::Unit(a) => {
+                    *stream = Stream::Unit(a);
+                    return stream.head();
+                }
+                Stream::Cons(a, rest) => {
+                    *stream = Stream::Cons(a, rest);
+                    return stream.head();
+                }""",
+      {"C08": "peek-trunc"}),
+    M("c08-peek-drops", ["C08"], "src/solver.rs",
+      "                _ => return stream.head(),\n            }\n        }\n    }\n\n    /// Truncates",
+      "                Stream::Cons(_, _) => { if let Stream::Cons(a, _) = std::mem::replace(stream, Stream::Empty) { *stream = Stream::Unit(a); } return stream.head() }\n                _ => return stream.head(),\n            }\n        }\n    }\n\n    /// Truncates",
+      {"C08": "peek-trunc"}),
+    M("c08-builder-norev", ["C08"], "src/operator/condu.rs",
+      "for clause in body.to_vec().drain(..).rev() {",
+      "for clause in body.to_vec().drain(..) {",
+      {"C08": "builder"}),
+    M("c08-builder-rest-from-2", ["C08"], "src/operator/conda.rs",
+      "clause.split_off(1)",
+      "clause.split_off(2)",
+      {"C08": "builder"}),
+    M("c08-onceo-conda", ["C08"], "src/operator/onceo.rs",
+      "proto_vulcan!(condu { g })",
+      "proto_vulcan!(conda { g })",
+      {"C08": "delegation"}, more=[("src/operator/onceo.rs", "use crate::operator::condu;", "use crate::operator::conda;")]),
+    M("c08-matchu-conda", ["C08"], "src/operator/matchu.rs",
+      "Condu::from_conjunctions(param.arms)",
+      "crate::operator::conda::Conda::from_conjunctions(param.arms)",
+      {"C08": "delegation"}),
 ]
